@@ -2425,3 +2425,85 @@ class HistoryFamily(Family):
     def bounded_source(cls, prog, fname):
         return 'test/calculator', cls.source(), ('all ordered pairs from a pool of 21 inputs x 4 tokenizers (after a complete run and after an aborted one; 0..2 has-next queries per token), '
                                                     '12 x 12 expressions on one calculator, 6 x 6 templates on one template instance, each against fresh instances')
+
+
+LEXEME_TEST = r'''package test_calculator
+
+import (
+	"strings"
+	"testing"
+
+	ctok "github.com/pip-services3-gox/pip-services3-expressions-gox/calculator/tokenizers"
+	"github.com/pip-services3-gox/pip-services3-expressions-gox/tokenizers"
+	"github.com/pip-services3-gox/pip-services3-expressions-gox/tokenizers/generic"
+)
+
+// C13 (bounded): every sequence of up to @L@ lexemes from the pools below, written with one blank between neighbours
+// (and, for pairs that cannot merge, also without), must be tokenized back into exactly those lexemes with exactly
+// those classes, by the generic and by the expression tokenizer (the generic quote state has no escape: its strings
+// run to the next quote of the same kind; doubled quotes are an expression/CSV feature).
+type lx struct { s string; typ int }
+
+func classes(ts []*tokenizers.Token) []lx {
+	var out []lx
+	for _, t := range ts { if t.Type() != tokenizers.Whitespace && t.Type() != tokenizers.Eof { out = append(out, lx{t.Value(), t.Type()}) } }
+	return out
+}
+
+func same2(a, b []lx) bool {
+	if len(a) != len(b) { return false }
+	for i := range a { if a[i] != b[i] { return false } }
+	return true
+}
+
+func isPunct(l lx) bool { return l.typ == tokenizers.Symbol && (l.s == "(" || l.s == ")" || l.s == "," || l.s == "[" || l.s == "]") }
+
+func TestVerifReplay(t *testing.T) {
+	W, I, F, Q, S, K, C := tokenizers.Word, tokenizers.Integer, tokenizers.Float, tokenizers.Quoted, tokenizers.Symbol, tokenizers.Keyword, tokenizers.Comment
+	genericPool := []lx{{"abc", W}, {"x_1", W}, {"éa", W}, {"юж", W}, {"12", I}, {"-7", I}, {"1.5", F}, {"-0.25", F}, {"'a b'", Q}, {"\"q'r\"", Q},
+		{"<=", S}, {"<>", S}, {">=", S}, {"<", S}, {"(", S}, {")", S}, {",", S}, {"+", S}, {"=", S}}
+	exprPool := []lx{{"abc", W}, {"x_1", W}, {"éa", W}, {"AND", K}, {"and", K}, {"Not", K}, {"nULL", K}, {"is", K}, {"IN", K}, {"like", K}, {"TRUE", K}, {"xor", K},
+		{"12", I}, {"1.5", F}, {"1e3", F}, {"2.5E-2", F}, {"'it''s'", Q}, {"'a\nb ю'", Q}, {"\"q\"\"r\"", W},
+		{"<=", S}, {">=", S}, {"<>", S}, {"!=", S}, {"<<", S}, {">>", S}, {"<", S}, {"-", S}, {"(", S}, {")", S}, {"[", S}, {",", S}, {"/* c */", C}}
+	run := func(name string, mk func() tokenizers.ITokenizer, pool []lx, depth int) {
+		var seqs [][]lx
+		var gen func(cur []lx, n int)
+		gen = func(cur []lx, n int) { if len(cur) > 0 { seqs = append(seqs, append([]lx{}, cur...)) }; if n == 0 { return }; for _, l := range pool { gen(append(cur, l), n-1) } }
+		gen(nil, depth)
+		bad := 0
+		tk := mk()
+		for _, sq := range seqs {
+			var parts []string
+			for _, l := range sq { parts = append(parts, l.s) }
+			for _, sep := range []string{" ", ""} {
+				if sep == "" {
+					ok := len(sq) > 1
+					for i := 0; i+1 < len(sq); i++ { if !isPunct(sq[i]) && !isPunct(sq[i+1]) { ok = false } }
+					if !ok { continue }
+				}
+				text := strings.Join(parts, sep)
+				got := classes(tk.TokenizeBuffer(text))
+				if !same2(got, sq) { t.Errorf("%s tokenizer: %q gives %v, the lexemes are %v", name, text, got, sq); bad++ }
+				if bad > 8 { t.Fatalf("stopping after %d failures", bad) }
+			}
+		}
+	}
+	run("generic", func() tokenizers.ITokenizer { return generic.NewGenericTokenizer() }, genericPool, @L@)
+	run("expression", func() tokenizers.ITokenizer { return ctok.NewExpressionTokenizer() }, exprPool, @L@)
+}
+'''
+
+
+class LexemeFamily(Family):
+    @classmethod
+    def source(cls, l=3):
+        return LEXEME_TEST.replace('@L@', str(l))
+
+    def test_source(self, vals):
+        return 'test/calculator', self.source()
+
+    @classmethod
+    def bounded_source(cls, prog, fname):
+        return 'test/calculator', cls.source(), ('all sequences of up to 3 lexemes over 19 (generic tokenizer) and 32 (expression tokenizer) lexemes of every class - identifiers incl. non-Latin, '
+                                                 'keywords in mixed case, integers, decimals, scientific notation, quoted strings with doubled quotes and line breaks, comments, every '
+                                                 'multi-character symbol - separated by one blank, and unseparated next to brackets and commas')
